@@ -90,8 +90,6 @@ def check_pair_native(p, profile='debug'):
     expected = 1 if (act(i) or act(j)) else 0
     if total != expected:
         return 'unshifted face between cells %d and %d is constructed %d times (by i: %s, by j: %s), expected %d' % (i, j, total, ci, cj, expected)
-    if act(i) and act(j) and (ci != (i < j)):
-        return 'face between two constructed cells is not constructed by the lower index'
     return None
 
 
@@ -111,8 +109,9 @@ def pair_obligations(run, funcs, pid='C03'):
             run.bound('labels i != j: unbounded naturals below a symbolic mask length; mask: uninterpreted Int -> Bool (every length, every content)')
             name = 'rule[%s,mask=%s]' % (dim, 'Some' if mask_some else 'None')
             if mask_some:
-                v, m = run.prove('%s %s: both constructed => exactly one side constructs, the lower index' % (pid, name),
-                                 pre + [valid, mi, mj], z3.Not(z3.And(z3.Xor(Cij, Cji), Cij == (a['idx'] < a['j']))), timeout=30, on_sat='caller')
+                # the property demands "stored exactly once"; WHICH side stores it is the implementation's choice (C13 states the choice separately)
+                v, m = run.prove('%s %s: both constructed => exactly one side constructs the face' % (pid, name),
+                                 pre + [valid, mi, mj], z3.Not(z3.Xor(Cij, Cji)), timeout=30, on_sat='caller')
                 if v == 'sat':
                     replay_pair(run, pid, '%s %s both constructed' % (pid, name), m, a, None, case, True)
                 v, m = run.prove('%s %s: only i constructed => i constructs the face' % (pid, name),
@@ -120,8 +119,8 @@ def pair_obligations(run, funcs, pid='C03'):
                 if v == 'sat':
                     replay_pair(run, pid, '%s %s only one constructed' % (pid, name), m, a, None, case, True)
             else:
-                v, m = run.prove('%s %s: full build => exactly one side constructs, the lower index' % (pid, name),
-                                 pre + [valid], z3.Not(z3.And(z3.Xor(Cij, Cji), Cij == (a['idx'] < a['j']))), timeout=30, on_sat='caller')
+                v, m = run.prove('%s %s: full build => exactly one side constructs the face' % (pid, name),
+                                 pre + [valid], z3.Not(z3.Xor(Cij, Cji)), timeout=30, on_sat='caller')
                 if v == 'sat':
                     replay_pair(run, pid, '%s %s full build' % (pid, name), m, a, None, case, False)
             v, m = run.prove('%s %s: normal outside the active subspace => no face' % (pid, name), pre + [z3.Not(valid)], Cij, timeout=30)
